@@ -56,6 +56,12 @@ def find_harness_file(crate, harness):
             p = os.path.join(dp, f)
             if re.search(r'\bfn\s+' + re.escape(harness) + r'\s*\(', open(p).read()):
                 return p
+    # harnesses defined through the hp!/hc!/hmp! macros: the name is a macro argument
+    for dp, dn, fn in os.walk(os.path.join(crate, 'src')):
+        for f in sorted(fn):
+            p = os.path.join(dp, f)
+            if f.endswith('.rs') and re.search(r'[{,(]\s*' + re.escape(harness) + r'\s*[,}]', open(p).read()):
+                return p
     return None
 
 
@@ -91,6 +97,10 @@ def playback(ci):
         return 2, 'playback did not run: ' + out[-800:]
     failed = int(mres.group(3))
     detail = '\n'.join(l.strip() for l in out.split('\n') if 'panicked at' in l or l.strip().startswith(('assertion', 'left:', 'right:')))
+    # a playback test that stops inside Kani's own library (a `kani::assume` that the recorded input of a *cover*
+    # does not satisfy on this tree) is not a reproduction of the failure
+    in_kani = len(re.findall(r"panicked at library/kani/", out))
+    failed = max(0, failed - in_kani)
     if failed:
         return 1, f'REPRODUCED on the real code: {failed} of {failed + int(mres.group(2))} playback test(s) of harness {ci["harness"]} fail natively\n' + detail
     return 0, 'not reproduced: the recorded inputs pass on the current tree'
